@@ -248,13 +248,19 @@ Proof.
         cbn [map]; rewrite ?sumZ_cons; f_equal; lia.
 Qed.
 
+Lemma last_cons_indep {A} (l : list A) : forall x d d', last (x :: l) d = last (x :: l) d'.
+Proof.
+  induction l as [|y l IH]; intros x d d'; [reflexivity|].
+  change (last (x :: y :: l) d) with (last (y :: l) d). change (last (x :: y :: l) d') with (last (y :: l) d'). apply IH.
+Qed.
+
 Lemma stats_of_expected l lo hi b0 :
   l <> [] -> bi_num (hd b0 l) = lo -> bi_num (last l b0) = hi -> stats_of l = expected_stats l lo hi.
 Proof.
   intros Hne Hlo Hhi. destruct l as [|b l']; [congruence|].
   unfold stats_of. rewrite stats_fold. cbn [a_empty a_used a_items a_free a_totused].
   unfold expected_stats. cbn [hd] in Hlo.
-  replace (last (b :: l') b) with (last (b :: l') b0) by (apply last_indep || (clear; revert b; induction l' as [|x l IH]; intros b; [reflexivity|]; cbn [last] in *; destruct l; [reflexivity|apply (IH x)])).
+  rewrite (last_cons_indep l' b b b0).
   rewrite Hlo, Hhi. unfold PageSize, BLCKSZ, tot_used.
   set (nu := Z.of_nat (length (used_blocks (b :: l')))).
   f_equal; try lia.
